@@ -118,7 +118,8 @@ class CleanPass(FunctionPass):
             block1.add_instruction(instruction)
 
         # Replace incoming info:
-        for successor in block2.successors:
+        # (a conditional jump may name the same block twice)
+        for successor in dict.fromkeys(block2.successors):
             successor.replace_incoming(block2, [block1])
 
         # Remove block from function:
